@@ -3,7 +3,7 @@ real functions with contracts spliced in.  Units are described by the python
 modules under /verif/units; this file only provides the splice operations."""
 import re
 
-from .extract import ExtractError, Extracted, extract_fn, match_brace
+from .extract import ExtractError, Extracted, extract_fn, match_brace, _split_stmts
 
 
 def flex(s: str) -> str:
@@ -205,6 +205,25 @@ class Fn:
                 break
             i += 1
         self.body = self.body[:i + 1] + '\n' + text + '\n' + self.body[i + 1:]
+        self.spec_inserts += 1
+        return self
+
+    def bind_tail(self, name, after_text, before_text=''):
+        """spec-only: `TAIL_EXPR }` -> `before; let name = TAIL_EXPR; after; name }` (structural: no text of the tail is matched)"""
+        inner = self.body[1:-1]
+        stmts = _split_stmts(inner)
+        if not stmts or stmts[-1].strip().endswith(';') or not stmts[-1].strip():
+            raise ExtractError(f"lost anchor in {self.qual}: function has no tail expression")
+        tail = stmts[-1].strip()
+        self.body = '{' + ''.join(stmts[:-1]) + '\n' + before_text + f'\nlet {name} = {tail};\n' + after_text + f'\n{name}\n}}'
+        self.spec_inserts += 1
+        return self
+
+    def at_loop_end(self, loop_anchor, text, nth=0):
+        """spec-only: insert text at the end of the body of the loop whose header contains `loop_anchor`"""
+        i = self._loop_open(loop_anchor, nth)
+        j = match_brace(self.body, i)
+        self.body = self.body[:j] + '\n' + text + '\n' + self.body[j:]
         self.spec_inserts += 1
         return self
 
